@@ -2,7 +2,7 @@
 // history (the operation language of life.cpp) on its own sandbox objects; all threads start together
 // and yield / spin pseudo-randomly between operations; the whole experiment is repeated R times.
 // Output: the per-thread outcome strings if they were the same in every repetition, else UNSTABLE.
-//   mt32|mtn <R> | <ops of thread 0> | <ops of thread 1> | ...
+//   mt32|mtn|mtne|mtd <R> | <ops of thread 0> | <ops of thread 1> | ...
 #define LIFE_NO_MAIN
 #include "life.cpp"
 #include <atomic>
@@ -59,5 +59,8 @@ static std::string run_mt(const toks_t& t)
 int main(int argc, char** argv)
 {
   g_between_ops = shake;
+#ifdef LIFE_NOOP
+  g_in_guest = [] { std::this_thread::yield(); shake(); };
+#endif
   return case_loop(argc, argv, run_mt);
 }
